@@ -55,7 +55,14 @@ def members(codec, data, r):
     if r.random() < 0.5:
         cuts[0] = min(cuts[0], r.choice([1, 100, 511, 513]))
         cuts = sorted(set(cuts))
+    if r.random() < 0.4:
+        # members that end exactly on 512 byte record boundaries (what `cat a.tar.gz b.tar.gz` style producers emit)
+        cuts = sorted(set(max(512, min(len(data) - 512, (c // 512) * 512)) for c in cuts)) if len(data) > 1024 else cuts
     parts = [data[a:b] for a, b in zip([0] + cuts, cuts + [len(data)])]
+    if r.random() < 0.5:
+        # zero-length members: legal in every one of the formats, the reference decompressors skip them
+        for _ in range(r.choice([1, 1, 2])):
+            parts.insert(r.choice([0, len(parts), r.randrange(len(parts) + 1)]), b"")
     return b"".join(compress(codec, p, r) for p in parts), cuts
 
 
